@@ -168,6 +168,16 @@ func (x *runner) enc(arg string) string {
 		perm := canonDoc.permuted(x.r.Rng)
 		x.r.CountN("permuted-objects", canonDoc.objects())
 		x.extra = append(x.extra, "dec "+flag+" "+perm.SX())
+		// documents the encoder did not write: a member missing (optional / omitempty / required fields) and a
+		// member nobody asked for (ignored by structs, an entry for Go maps)
+		if x.r.Rng.Chance(1, 2) {
+			if d := canonDoc.dropped(x.r.Rng); d != nil {
+				x.extra = append(x.extra, "dec "+flag+" "+d.SX())
+			}
+			if d := canonDoc.extended(x.r.Rng); d != nil {
+				x.extra = append(x.extra, "dec "+flag+" "+d.SX())
+			}
+		}
 	}
 	sreason := top.inexpressible()
 	if sreason == "" && vreason == "" && nontrivial(v) {
@@ -358,6 +368,46 @@ func countKinds(r *hx.Run, s *S, seen map[*S]bool) {
 	}
 }
 
+// nonUTF8 is a Go-only stream (Lean strings cannot hold such values): a string that is not valid UTF-8 is what
+// the JSON form cannot express - json.Marshal replaces the bad bytes by U+FFFD.  Expected: with validation the
+// encoder refuses it; without validation the round trip is lossy, which is counted, not reported.
+func nonUTF8(r *hx.Run, n int) {
+	type T struct {
+		S string            `serix:"s"`
+		M map[string]string `serix:"m"`
+	}
+	api := serix.NewAPI()
+	ctx := context.Background()
+	for i := 0; i < n; i++ {
+		bad := string([]byte{byte('a' + r.Rng.Intn(26)), byte(0x80 + r.Rng.Intn(0x40)), 'z'})
+		v := &T{S: "ok", M: map[string]string{"k": "v"}}
+		switch r.Rng.Intn(3) {
+		case 0:
+			v.S = bad
+		case 1:
+			v.M["k"] = bad
+		default:
+			v.M = map[string]string{bad: "v"}
+		}
+		if _, err := api.JSONEncode(ctx, v, serix.WithValidation()); err == nil {
+			r.Fail("non-utf8-validated", fmt.Sprintf("JSONEncode with validation accepted the non-UTF-8 string %q", bad),
+				map[string]string{"oracle": "non-utf8-validated"})
+		}
+		js, err := api.JSONEncode(ctx, v)
+		if err != nil {
+			r.Count("non-utf8:enc-err")
+
+			continue
+		}
+		d := &T{}
+		if err := api.JSONDecode(ctx, js, d); err == nil && reflect.DeepEqual(v, d) {
+			r.Count("non-utf8:roundtrip-ok")
+		} else {
+			r.Count("non-utf8:lossy")
+		}
+	}
+}
+
 func main() {
 	r := hx.Start()
 	if p := os.Getenv("C01B_DEBUG"); p != "" {
@@ -378,6 +428,7 @@ func main() {
 	for _, c := range corpus() {
 		x.runCase(0, c)
 	}
+	nonUTF8(r, 100*r.Scale)
 	n := 3000 * r.Scale
 	for i := 0; i < n; i++ {
 		rng, sub := r.Rng.Fork()
